@@ -483,7 +483,7 @@ class C11(vlib.Driver):
                 if rec["sample"] is None:
                     V("sample-raised", "sample raised an AssertionError on a non-empty buffer")
                 else:
-                    self._oracle_sample(V, op, rec, slots, leaves, n, beta)
+                    self._oracle_sample(V, op, rec, slots, leaves, n, beta, case["kind"] == "exact")
             if out:
                 break
         if not out:
@@ -502,7 +502,7 @@ class C11(vlib.Driver):
             if not keep:
                 rec["sum"] = rec["min"] = None
 
-    def _oracle_sample(self, V, op, rec, slots, leaves, n, beta):
+    def _oracle_sample(self, V, op, rec, slots, leaves, n, beta, exact_kind):
         idx, w, rows = rec["sample"]["idx"], rec["sample"]["w"], rec["sample"]["rows"]
         us = op[1]
         B = len(us)
@@ -516,7 +516,9 @@ class C11(vlib.Driver):
         fl = [Fraction(x) for x in leaves]
         tot_x = sum(fl)
         total = rec["sum_root"]
-        exact = Fraction(total) == tot_x
+        # the strict (boundary-sensitive) test is used only where binary64 arithmetic is exact by construction
+        # (kind=exact: small integer priorities, dyadic draws, batch a power of two) and verified to be so here
+        exact = exact_kind and Fraction(total) == tot_x
         seg = total / B
         exact = exact and Fraction(seg) * B == tot_x
         for k, (u, i) in enumerate(zip(us, idx)):
